@@ -13,7 +13,7 @@ RULE = ("every public raster function (41 entry points) x backend {numpy, dask} 
         "name) before vs after each call; np.shares_memory + write probe on the output; identity of the output (shape, dims, "
         "coordinates, attrs, backend) for raster-in/raster-out functions; non-trivial = distinct (function, backend, dtype, layout) "
         "combinations whose call returned a result")
-BUDGET = {'quick': 150, 'thorough': 900}
+BUDGET = {'quick': 300, 'thorough': 900}
 MODES = {'quick': [('J', 8), ('I', 8)], 'thorough': [('J', 8), ('I', 8)]}
 FLOORS = {'quick': {'inputs_unmodified': 2356, 'no_shared_writable_memory': 1500, 'identity_kept': 1200, 'layout.F': 300, 'layout.strided': 300,
                     'layout.readonly': 300, 'backend.dask': 447, 'sequence_len>=3': 72, 'scalar_coords_kept': 250, 'funcs_covered': 1},
